@@ -44,6 +44,13 @@ type c09Case struct {
 	Salt   uint64      `json:"salt"` // derives the tails of the wrong codes
 }
 
+// public renders every caller-supplied value of the case as text (see tainted).
+func (c c09Case) public(submitted string) string {
+	return strings.Join([]string{submitted, fmt.Sprint(c.N), fmt.Sprintf("%x", c.N), fmt.Sprintf("%016x", c.N), fmt.Sprint(c.N / 30), fmt.Sprint(c.Digits), fmt.Sprint(c.Algo), fmt.Sprint(c.Skew),
+		fmt.Sprint(c.Period), ref.B32(c.Key), fmt.Sprintf("%x", c.Key), c.Reg, c.Cfg.Raw, fmt.Sprint(c.Cfg.Digits), fmt.Sprint(c.Cfg.TimeStep),
+		fmt.Sprintf("%x|%x|%x|%x|%x", c.In.C, c.In.Q, c.In.P, c.In.S, c.In.T), string(c.In.Q), string(c.In.S)}, "\x00")
+}
+
 func (c c09Case) ocraSuite() (otp.Suite, ref.OCRACfg) {
 	if c.Reg != "" {
 		su, _ := otp.NewRawSuite(c.Reg)
@@ -229,14 +236,17 @@ func traced(f func()) traceResult {
 
 // tainted reports a string-comparison operand that carries the expected code, an
 // acceptable code, a fragment of it that is not in the submitted code, or the digest.
-func tainted(evs []trace.StrEvent, submitted string, window, digests []string) string {
+// public is the text of everything the caller supplied (submitted code, counter / time in decimal and hex, digits,
+// window, period, secret text, suite name, input fields in hex): an operand that occurs there is caller data, even if
+// it happens to coincide with a stretch of the expected code (a counter 128 and an expected code 01284788).
+func tainted(evs []trace.StrEvent, public string, window, digests []string) string {
 	for _, e := range evs {
 		for _, o := range []string{e.A, e.B} {
 			for _, w := range window {
-				if o == w {
+				if o == w && !strings.Contains(public, o) {
 					return fmt.Sprintf("string comparison %q vs %q: an operand is the expected code", e.A, e.B)
 				}
-				if len(o) >= 3 && len(o) < len(w) && strings.Contains(w, o) && !strings.Contains(submitted, o) {
+				if len(o) >= 3 && len(o) < len(w) && strings.Contains(w, o) && !strings.Contains(public, o) {
 					return fmt.Sprintf("string comparison %q vs %q: an operand is a fragment of the expected code %s", e.A, e.B, w)
 				}
 			}
@@ -264,7 +274,7 @@ func checkC09(c c09Case) verdict {
 	}
 	baseCall := c.prepare(string(un))
 	base := traced(func() { baseCall() })
-	if t := tainted(base.str, string(un), window, digests); t != "" {
+	if t := tainted(base.str, c.public(string(un)), window, digests); t != "" {
 		return bad(true, labels, "%s: %s (submitted %s, expected %s)", c.Entry, t, un, e)
 	}
 	for k := 0; k < len(e); k++ {
@@ -276,7 +286,7 @@ func checkC09(c c09Case) verdict {
 			if accepted {
 				return bad(true, labels, "HARNESS/C03: wrong code %s accepted (expected %s)", code, e)
 			}
-			if t := tainted(tr.str, code, window, digests); t != "" {
+			if t := tainted(tr.str, c.public(code), window, digests); t != "" {
 				return bad(true, labels, "%s: %s (submitted %s, expected %s, %d leading characters correct)", c.Entry, t, code, e, k)
 			}
 			if tr.vec != base.vec && consistentlyDiffers(c, code, string(un)) {
